@@ -423,6 +423,8 @@ class Facts:
             self.raw = json.load(f)
         self.path = path
         # helpers that the pinned tree does not have are inlined into their callers (exact summary; see vf/inline.py)
+        from .normalise import normalise
+        self.normalised = normalise(self.raw)      # parameter order, field and constant names of private items as in the pinned tree
         from .inline import inline_new_helpers
         self.inlined_helpers = inline_new_helpers(self.raw)
         self.sid_alias = self.raw.get("sid_alias", {})
